@@ -95,7 +95,7 @@ def main():
                                 "detail": [l.strip() for l in out.splitlines() if l.startswith("  ")][:2],
                                 "wall_s": round(time.time() - t0, 1)}
     finally:
-        sh("git -C /repo checkout -- . && git -C /repo reset -q", cwd="/repo")
+        sh("git -C /repo reset -q && git -C /repo checkout -- .", cwd="/repo")
         rc, out = sh("git -C /repo status --short")
         res["repo_clean_after"] = out.strip() == ""
     print(json.dumps(res))
